@@ -9,7 +9,7 @@ from vlib import drive
 
 PROPERTY = "C13"
 RULE = ("case: strategy in {dimension-wise, extend-split, cell}, d 2-3, scalar or 2-component integrand with a given reference "
-        "solution (close to the true integral, far from it, or all zero), norm in {inf, 2, 1}, the library's own error estimators. "
+        "solution (close to the true integral, far from it, or all zero; integrand magnitude 1, 1e-4, 1e-10 or 1e6), norm in {inf, 2, 1}, the library's own error estimators. "
         "One reference history (tol=-1, large point limit) records after every evaluation the error, point count, surplus error, "
         "result and refinement structure; then up to 3 limit triples (tol, min_evaluations, max_evaluations) are drawn FROM the "
         "observed history (values equal to / just above / just below observed errors and point counts, limits already met at "
@@ -51,7 +51,8 @@ def build(case, seen):
 
     def fun(x):
         seen.add(tuple(float(t) for t in x))
-        return [float(g(x)) for g in gs]
+        return [float(g(x)) * fscale for g in gs]
+    fscale = float(case.get("fscale", 1.0))
     f = FunctionCustom(fun, output_dim=case["nout"])
     norm = np.inf if case["norm"] == "inf" else case["norm"]
     ref = np.array(case["reference"], dtype=float)
@@ -235,7 +236,7 @@ def run(case):
         if kstar == 0:
             out.cls("limit-met-at-first-evaluation")
     out.nontrivial = nt
-    out.cls("norm=%s" % p, "nout=%d" % case["nout"], "reference=%s" % case["refmode"])
+    out.cls("norm=%s" % p, "nout=%d" % case["nout"], "reference=%s" % case["refmode"], "fscale=%g" % case.get("fscale", 1.0))
     if kind == "dw":
         out.cls("version=%d" % case["version"])
     out.info = dict(max_history_len=len(E), max_points=N[-1] if N else 0)
@@ -265,7 +266,10 @@ def _strategy(kind):
                 ref = [r * 1.5 + 0.25 for r in ref]
             if refmode == "zero":
                 ref = [0.0] * nout
-            c = dict(kind=kind, dim=dim, a=a, b=b, nout=nout, fseed=fseed, reference=ref, refmode=refmode,
+            # magnitude of the integrand: the stopping rules and the relative error must not depend on it
+            fscale = draw(st.sampled_from([1.0, 1.0, 1.0, 1e-4, 1e-10, 1e6]))
+            ref = [r * fscale for r in ref]
+            c = dict(kind=kind, dim=dim, a=a, b=b, nout=nout, fseed=fseed, reference=ref, refmode=refmode, fscale=fscale,
                      norm=draw(st.sampled_from(["inf", "inf", 2, 1])), boundary=True)
             if kind == "dw":
                 c.update(lmin=draw(st.integers(1, 2)), version=draw(st.sampled_from([6, 6, 2, 3, 7, 8])),
